@@ -1,6 +1,7 @@
 """torch.linalg.solve as a contract stub: for a square system of order n <= 3
 the unique solution is given in closed form (adjugate / determinant); a
-singular matrix raises RuntimeError like torch does.  The path forks on
+singular matrix raises RuntimeError like torch does.  A concrete matrix with a
+symbolic right-hand side (any order) is eliminated on the floats.  The path forks on
 det(a) == 0.  Pivoting and rounding are not modelled."""
 import itertools
 import sx
@@ -35,6 +36,8 @@ def solve(a, b, *, left=True, out=None):
     if all(isinstance(v, (int, float)) for row in A for v in row) and \
             all(isinstance(v, (int, float)) for v in b._vals()):
         return _solve_concrete(A, a, b)
+    if all(isinstance(v, (int, float)) for row in A for v in row):
+        return _solve_concrete_matrix(A, a, b)
     if n > 3:
         raise Unmodelled('linalg.solve of order > 3 on symbolic values')
     for row in A:
@@ -81,6 +84,45 @@ def solve(a, b, *, left=True, out=None):
         vals = [sols[c][i] for i in range(n) for c in range(len(cols))]
         size = (n, len(cols))
     return _result(vals, size, a.dtype, (a, b))
+
+
+def _solve_concrete_matrix(A, a, b):
+    """concrete matrix, symbolic right-hand side: Gaussian elimination with partial pivoting on the floats,
+    the row operations applied to the symbolic entries (exact as long as the float operations are)"""
+    import math
+    from . import _result
+    n = len(A)
+    if any(math.isnan(float(x)) or math.isinf(float(x)) for row in A for x in row):
+        size = (n,) if b.dim() == 1 else (n, b.size(1))
+        cnt = n if b.dim() == 1 else n * b.size(1)
+        return _result([sx.fresh_unspecified('linalg') for _ in range(cnt)], size, a.dtype, (a, b))
+    ncol = 1 if b.dim() == 1 else b.size(1)
+    R = [[b._get((i,)) if b.dim() == 1 else b._get((i, c)) for c in range(ncol)] for i in range(n)]
+    M = [[float(x) for x in row] for row in A]
+    for k in range(n):
+        p = max(range(k, n), key=lambda i: abs(M[i][k]))
+        if M[p][k] == 0:
+            raise RuntimeError('torch.linalg.solve: The solver failed because the input matrix is singular.')
+        M[k], M[p] = M[p], M[k]
+        R[k], R[p] = R[p], R[k]
+        for i in range(k + 1, n):
+            f = M[i][k] / M[k][k]
+            if f == 0:
+                continue
+            for j in range(k, n):
+                M[i][j] -= f * M[k][j]
+            R[i] = [sx.sub(R[i][c], sx.mul(f, R[k][c])) for c in range(ncol)]
+    X = [[0.0] * ncol for _ in range(n)]
+    for c in range(ncol):
+        for i in range(n - 1, -1, -1):
+            s_ = R[i][c]
+            for j in range(i + 1, n):
+                if M[i][j] != 0:
+                    s_ = sx.sub(s_, sx.mul(M[i][j], X[j][c]))
+            X[i][c] = sx.div(s_, M[i][i])
+    if b.dim() == 1:
+        return _result([X[i][0] for i in range(n)], (n,), a.dtype, (a, b))
+    return _result([X[i][c] for i in range(n) for c in range(ncol)], (n, ncol), a.dtype, (a, b))
 
 
 def _solve_concrete(A, a, b):
